@@ -1859,7 +1859,6 @@ func (c *Ctx) guardedSubRule(rule string, fns []*ssa.Function, reasons map[strin
 	return n
 }
 
-
 // sameQuietLen: two static calls of the same standard-library Len method on the same receiver, in one function, with
 // no other call on (or passing) that receiver at any point that lies between them in dominance order.
 func sameQuietLen(a, b *ssa.Call) bool {
